@@ -17,7 +17,7 @@
 (*   Quiesced  the harness saw no activity for a whole idle interval          *)
 (*   Final goroutines_left ports_rebound custom_close events_closed | Panic   *)
 (* Every event carries seq (global order) and t (milliseconds).               *)
-EXTENDS Integers, Sequences, SequencesExt, FiniteSets, FiniteSetsExt, MavFrame, MavMessage, SrRule
+EXTENDS Integers, Sequences, SequencesExt, FiniteSets, FiniteSetsExt, MavFrame, MavMessage, SrRule, ReconnRule
 
 CONSTANTS Defs,        \* reflected message definitions (for heartbeat / stream request decoding, checksums)
           HbDef, SrDef, TagDef   \* indices into Defs of HEARTBEAT, REQUEST_DATA_STREAM, NAMED_VALUE_INT
@@ -336,7 +336,7 @@ FinalReconnect(m, ev) ==
              LET prevFail == IF A[i - 1].mode \in {"fail", "refuse", "accept_close"} THEN {A[i - 1].t} ELSE {}
                  closes == {m.closeTimes[j].t : j \in {x \in 1..Len(m.closeTimes) : m.closeTimes[x].ep = ep /\ m.closeTimes[x].seq < A[i].seq}}
                  ref == prevFail \cup closes
-             IN ref = {} \/ (LET r == Max(ref) IN 10 * (A[i].t - r) >= 9 * period - 50 /\ A[i].t - r <= period + 3000)
+             IN ref = {} \/ GapOk(A[i].t - Max(ref), period, period \div 10 + 5, 3000)
       \* the harness only sees attempts its fake server accepts: not judged when the server refused or hung before
       firstOk(ep) == Len(real(ep)) = 0 \/ ep \in m.unobservable \/ real(ep)[1].t - m.tInit <= 1000
       \* every failure (close event before Close, failed attempt) that Close leaves enough time is followed by a new attempt
@@ -354,7 +354,7 @@ FinalReconnect(m, ev) ==
         LET O == opensOf(ep)
         IN \A i \in 2..Len(O) :
              LET closes == {m.closeTimes[j].t : j \in {x \in 1..Len(m.closeTimes) : m.closeTimes[x].ep = ep /\ m.closeTimes[x].seq < O[i].seq}}
-             IN closes = {} \/ (LET r == Max(closes) IN 10 * (O[i].t - r) >= 9 * period - 50 /\ O[i].t - r <= period + 3000)
+             IN closes = {} \/ GapOk(O[i].t - Max(closes), period, period \div 10 + 5, 3000)
       m0 == Check(m, "C14.reconnects_after_every_failure", \A ep \in Eps(m) : m.kinds[ep + 1] \notin ClientKinds \/ retried(ep), ev)
   IN Check(Check(m0, "C14.reconnect_after_the_delay",
                  \A ep \in Eps(m) : m.kinds[ep + 1] \notin ClientKinds \/ (okGap(ep) /\ (m.kinds[ep + 1] # "udp_client" \/ okReopen(ep))), ev),
@@ -366,7 +366,7 @@ FinalIdle(m, ev) ==
       openT(k) == LET S == {i \in 1..Len(m.openTimes) : m.openTimes[i].ep = k[1] /\ m.openTimes[i].inst = k[2]} IN
                   IF S = {} THEN -1 ELSE m.openTimes[Min(S)].t
       closeRec(k) == {m.closeTimes[i] : i \in {x \in 1..Len(m.closeTimes) : m.closeTimes[x].ep = k[1] /\ m.closeTimes[x].inst = k[2]}}
-      silentOk(k) == openT(k) < 0 \/ \E c \in closeRec(k) : ~c.closing /\ c.t - openT(k) >= idle - 20 /\ c.t - openT(k) <= idle + 3000
+      silentOk(k) == openT(k) < 0 \/ \E c \in closeRec(k) : ~c.closing /\ IdleCloseOk(c.t, openT(k), idle, 20, 3000)
       activeOk(k) == openT(k) < 0 \/ \A c \in closeRec(k) : c.closing \/ c.t - openT(k) >= 4 * idle
   IN Check(Check(m, "C14.idle_connection_closed_after_timeout", \A k \in ToSet(m.conf.idle_silent) : silentOk(k), ev),
            "C14.active_connection_not_closed", \A k \in ToSet(m.conf.idle_active) : activeOk(k), ev)
